@@ -723,13 +723,20 @@ def run_engine_case(case: dict) -> dict:
         t0 = datetime.now(UTC) - timedelta(seconds=5)
         a_mark, e_mark = env.audit_max(), env.ev_max()
 
-        def observe(handler, rid):
+        def observe(handler, rid, payload=None):
             nonlocal a_mark, e_mark
             rows = [r for r in env.audit(a_mark) if r["kind"] in ("workflow", "stage", "task")]
             evs = env.ev_rows(e_mark)
             a_mark, e_mark = env.audit_max(), env.ev_max()
+            steps_ = classify(handler, rows, ids)
+            if handler == "CompleteTask" and payload and payload.get("status") == "SKIPPED" and not any(r["kind"] == "task" for r in rows):
+                # the continuation of a task StartTask already marked SKIPPED (disabled SkippableTask): SKIPPED -> SKIPPED is no
+                # status change for the audit trigger, but it is the task's regular completion step
+                cur_st = env.hconn.execute("SELECT status FROM task_executions WHERE id = ?", (payload.get("task_id"),)).fetchone()
+                if cur_st is not None and cur_st[0] == "SKIPPED":
+                    steps_ = steps_ + [("LCompleteTask", ids.ent("task", payload["task_id"])[1], "SKIPPED")]
             if rows or evs:
-                out["deliveries"].append({"handler": handler, "row": rid, "steps": classify(handler, rows, ids),
+                out["deliveries"].append({"handler": handler, "row": rid, "steps": steps_,
                                           "events": [abstract_event_row(r, ids, t0) for r in evs],
                                           "writes": [(ids.ent(r["kind"], r["ent"]), r["old"], r["new"]) for r in rows]})
         env.submit()
@@ -755,9 +762,10 @@ def run_engine_case(case: dict) -> dict:
                     break
             else:
                 rid = pick_row(rows, rng, case["policy"])
+            payload = [x for x in rows if x["id"] == rid][0]["payload"]
             r = env.deliver(rid)
             out["actions"].append(["D", rid])
-            observe(r.get("polled") or "?", rid)
+            observe(r.get("polled") or "?", rid, payload)
             steps += 1
         out["quiescent"] = len(env.rows()) == 0
         out["scope_depth_max"] = _DEPTH["max"]
@@ -956,7 +964,7 @@ def run(ctx) -> RunResult:
     rcases = replay_cases(ctx.rng, 900 if thorough else 150, thorough)
     routs = run_pool(run_replay_case, rcases)
     terms, meta = replay_terms(routs)
-    fail, err = lib.coq_failing_indices(REQ, CHECK_REPLAY, CASE_T_REPLAY, terms, "c12_replay", shard=60 if thorough else 40)
+    fail, err = lib.coq_failing_indices(REQ, CHECK_REPLAY, CASE_T_REPLAY, terms, f"c12_replay_{os.getpid()}", shard=60 if thorough else 40)
     if err:
         res.disagreements.append({"what": "model evaluation failed (replay)", "detail": err[:800]})
     for i in fail[:6]:
@@ -986,7 +994,7 @@ def run(ctx) -> RunResult:
     ecases = engine_cases(ctx.rng, ctx.tier)
     eouts = run_pool(run_engine_case, ecases)
     rec_terms, rec_meta, rep_terms, rep_meta = engine_terms(eouts)
-    fail, err = lib.coq_failing_indices(REQ, CHECK_REC, CASE_T_REC, rec_terms, "c12_rec", shard=40)
+    fail, err = lib.coq_failing_indices(REQ, CHECK_REC, CASE_T_REC, rec_terms, f"c12_rec_{os.getpid()}", shard=40)
     if err:
         res.disagreements.append({"what": "model evaluation failed (recording)", "detail": err[:800]})
     for i in fail[:6]:
@@ -996,7 +1004,7 @@ def run(ctx) -> RunResult:
                                   "deliveries": [{"handler": d["handler"], "steps": d["steps"],
                                                   "events": [(e["kind"], e["ety"], e["eid"], e["status"]) for e in d["events"]]}
                                                  for d in o["deliveries"]][:40]})
-    fail, err = lib.coq_failing_indices(REQ, CHECK_REPLAY, CASE_T_REPLAY, rep_terms, "c12_erep", shard=25)
+    fail, err = lib.coq_failing_indices(REQ, CHECK_REPLAY, CASE_T_REPLAY, rep_terms, f"c12_erep_{os.getpid()}", shard=25)
     if err:
         res.disagreements.append({"what": "model evaluation failed (engine replay)", "detail": err[:800]})
     for i in fail[:6]:
